@@ -38,6 +38,8 @@ Definition init : state :=
 Inductive op :=
 | NewModel (pin pout : pid)          (* m = tf.keras.Model(...) on fresh tensors whose id() are pin, pout *)
 | ShareIO (m : uid)                  (* m2 = tf.keras.Model(m.input, m.output): new model object, same tensors *)
+| NewOutput (m : uid) (pout : pid)   (* m2 = tf.keras.Model(m.input, other_layer.output): same input tensor, another output
+                                        tensor (what output_layer= and Grad-CAM build) *)
 | Discard (m : uid)                  (* del m; gc.collect() *)
 | NewExplainer (e : nat) (m : uid).  (* e = Explainer(m, ...) *)
 
@@ -76,6 +78,16 @@ Definition step (s : state) (o : op) : state :=
       | Some k => let m := next s in
           {| tensors := tensors s; models := (m, k) :: models s;
              roots := m :: roots s; cache := cache s; explainers := explainers s; next := S (next s) |}
+      | None => s
+      end
+  | NewOutput m0 pout =>
+      match find_model s m0 with
+      | Some k =>
+          if pid_free s pout then
+            let t2 := next s in let m := S (next s) in
+            {| tensors := (t2, pout) :: tensors s; models := (m, (fst k, t2)) :: models s;
+               roots := m :: roots s; cache := cache s; explainers := explainers s; next := S (S (next s)) |}
+          else s
       | None => s
       end
   | Discard m =>
